@@ -90,8 +90,11 @@ CLAIMED.update({
             "first-principles point oracle on the 32-bit and 16-bit entries and the box loop; byte-level canary-frame oracle on "
             "composite/fill/glyph/trapezoid drawing for 11 destination formats incl. a1/a4/24bpp under 2 implementation chains.",
             TB + "Exactness is claimed for alpha maps without a clip region (with one: reported region is a subset of the property's "
-            "intersection). Partial: 'every composite routine honours its box' and the sub-byte/padding frame are differential "
-            "(canary oracle), not proved; the 16-bit wrapper is correspondence/oracle only (known finding: coordinates > 32767). The "
+            "intersection). Frame theorems at model level (Props/C03Frame): the general path's write-back (C10 scanline stores over "
+            "the boxes of R), incl. the alpha-map store, fill_boxes/fill_rectangles on every route (C19), glyph drawing (C17Draw) and "
+            "mask-route trapezoids change no bit outside the pixels of R (sub-byte neighbours, row padding, other rows) for every "
+            "1/4/8/16/24/32-bpp format. Partial: the fast-path/SIMD composite bodies are outside every model (canary oracle under "
+            "each chain only); direct trapezoid rasterisation is framed on C12's pixel array (row/column containment: C04 S8); the 16-bit wrapper is correspondence/oracle only (known finding: coordinates > 32767). The "
             "theorems' hypothesis RangeOK = no int overflow AND every consulted clip canonical; requests with a hand-built non-canonical "
             "clip (unreachable through the region API) are compared with the model only, not with the point oracle.",
             TECH, "DESIGN.md 6/C03"),
